@@ -199,6 +199,13 @@ def xml_to_tupletree_sax(xml_string, meaning, conn_id=None):
                     meaning, exc, xml_msg),
             conn_id=conn_id)
         raise pe.with_traceback(org_tb)  # ignore this call in traceback!
+    except LookupError as exc:
+        # The XML declaration names an encoding that is not known
+        # (e.g. "unknown encoding: foo")
+        raise XMLParseError(
+            _format("XML parsing error encountered in {0}: {1}",
+                    meaning, exc),
+            conn_id=conn_id)
 
     return handler.root
 
